@@ -1357,7 +1357,7 @@ func (s *Store) processHandoff(ctx context.Context, nodeID uint64, lease Lease) 
 
 	select {
 	case <-ctx.Done():
-		return context.Cause(ctx)
+		return contextErr(ctx)
 	case sub.HandoffCh() <- lease.ID():
 		return nil
 	}
